@@ -758,7 +758,7 @@ func splitSexpArgs(s string) []string {
 				out = append(out, s[start:i+1])
 				start = -1
 			}
-		case c == ' ':
+		case c == ' ' || c == '\n' || c == '\t' || c == '\r':
 			if d == 0 && start >= 0 {
 				out = append(out, s[start:i])
 				start = -1
